@@ -5,8 +5,10 @@
      weed/replication/sink/localsink     LocalSink on a small file tree
    Paths are Go strings; every string operation of the Go code (HasPrefix,
    TrimSuffix, Trim, slicing s[n:], FullPath.Child, filepath.Join/Clean) is
-   modelled on Coq strings.  The model follows the tree AFTER the component-wise
-   prefix repair (pathIsUnder in filer_sync.go, the trimmed [dir] in Replicate).
+   modelled on Coq strings.  The model follows the tree AFTER the repairs:
+   component-wise prefix test (pathIsUnder in filer_sync.go, the trimmed [dir] in
+   Replicate), the early test of genProcessFunction also looking at the new
+   location, LocalSink.UpdateEntry reporting a moved entry as not found.
    Executable definitions only; proofs are in proof/ReplProofs.v. *)
 From Coq Require Import List NArith ZArith Bool String Ascii Arith.
 Import ListNotations.
@@ -223,7 +225,10 @@ Definition build_key (c : config) (ev : event) (nsrc key : string) : string :=
 
 Definition sync_process (c : config) (ev : event) : plan :=
   let nsrc := "/" ^^ trim_slashes (src c) in
-  if negb (under (ev_dir ev) nsrc) then Nothing else
+  (* neither the old nor the new location is in the watched directory *)
+  if negb (under (ev_dir ev) nsrc) &&
+     negb (match ev_new ev with Some _ => under (ev_new_parent ev) nsrc | None => false end)
+  then Nothing else
   match ev_old ev, ev_new ev with
   | Some o, None =>
       let ok := child (ev_dir ev) (e_name o) in
@@ -364,14 +369,7 @@ Definition all_outside (c : config) (ev : event) : bool :=
   opt_all (fun k => negb (lprefix (src_segs c) k)) (old_key ev) &&
   opt_all (fun k => negb (lprefix (src_segs c) k)) (new_key ev).
 
-(* finding 0: an entry moved from outside into the watched subtree *)
-Definition rename_in (c : config) (ev : event) : bool :=
-  match old_key ev, new_key ev with
-  | Some ok, Some nk => negb (inside c ok) && inside c nk
-  | _, _ => false
-  end.
-
-(* finding 1: Replicate handles an event with both entries by its old key only
+(* finding 0: Replicate handles an event with both entries by its old key only
    and hands NewParentPath to the sink unmapped; it is right exactly when both
    keys are outside, or the entry stays where it is and the mapping is the
    identity on its directory *)
@@ -449,8 +447,10 @@ Definition local_do (t : tree) (o : sinkop) : tree * (bool * bool) :=
   match o with
   | Create key e => let '(t', err) := local_create t key e in (t', (false, err))
   | Delete key _ _ => (local_delete t key, (false, false))
-  | Update key _ e _ =>
+  | Update key np e _ =>
       if is_multipart key then (t, (true, false)) else
+      (* the entry moved: report "not found", the caller deletes the old key and creates the new one *)
+      if negb (String.eqb (join [np; e_name e]) key) then (t, (false, false)) else
       let found := local_exists t key in
       let '(t', err) := local_create t key e in (t', (found, err))
   end.
@@ -485,14 +485,3 @@ Definition spec_files_step (c : config) (fs : list string) (ev : event) : list s
   end.
 Definition spec_files (c : config) (evs : list event) : list string :=
   fold_left (spec_files_step c) evs [].
-
-(* finding 2: a file renamed inside the watched subtree (LocalSink.UpdateEntry
-   rewrites the old key) *)
-Definition renames_file_within (c : config) (ev : event) : bool :=
-  match ev_old ev, ev_new ev with
-  | Some o, Some n =>
-      let ok := segs (ev_dir ev) ++ [e_name o] in
-      let nk := segs (ev_new_parent ev) ++ [e_name n] in
-      negb (e_isdir n) && inside c ok && inside c nk && negb (list_eqb ok nk)
-  | _, _ => false
-  end.
